@@ -298,6 +298,70 @@ def logged_snapshots_leg(c, wd):
     sys.modules.pop(mod.__name__, None)
 
 
+CAPTURE_HOST = '''
+def scale(first, second, third):
+    both = [first, second]
+    return [third, {'k': first}, both]  # TP:ret
+
+
+def fail(first, second):
+    table = {'a': first}
+    raise ValueError([second, table])
+'''
+
+
+def capture_intact_leg(c, wd):
+    """A deferred snapshot (method_capture / line_capture): the value captured when the invocation ends is ADDED to the
+    snapshot taken at the call - every variable collected then is still there, with its own value."""
+    mod, path, marks = R.write_host(wd, CAPTURE_HOST)
+    base = path.rsplit('/', 1)[-1]
+    cases = [('method_capture', 'scale', lambda: mod.scale(1111, 'text', 3.5), {'first': '1111', 'second': 'text', 'third': '3.5'},
+              'return', 'list'),
+             ('line_capture', 'scale', lambda: mod.scale(1111, 'text', 3.5),
+              {'first': '1111', 'second': 'text', 'third': '3.5', 'both': 'Size: 2'}, 'return', 'list'),
+             ('method_capture', 'fail', lambda: mod.fail(7, 'seven'), {'first': '7', 'second': 'seven'}, 'exception', None)]
+    for stage, fn, call, want, capname, captype in cases:
+        rg = R.Rig()
+        try:
+            args = {'stage': stage, 'fire_count': '-1', 'fire_period': '0'}
+            if stage == 'method_capture':
+                args['method_name'] = fn
+            rg.install([{'id': 'tp-cap', 'path': base, 'line': marks['ret'] if stage == 'line_capture' else 0,
+                         'args': args, 'watches': []}])
+            res = rg.run(call, only_file=path)
+            snaps = rg.snapshots()
+            bad = None
+            if rg.escaped:
+                bad = 'handler raised: %r' % (rg.escaped,)
+            elif len(snaps) != 1:
+                bad = '%d snapshots for one deferred capture (host %r)' % (len(snaps), res)
+            else:
+                s_ = snaps[0]
+                byname = {v.name: s_.var_lookup.get(v.vid) for v in s_.frames[0].variables}
+                for name, val in want.items():
+                    v = byname.get(name)
+                    if v is None:
+                        bad = 'frame variable %s is gone (or dangling) after the capture was added' % name
+                        break
+                    if v.value != val:
+                        bad = 'frame variable %s reads %r after the capture was added, it was %r' % (name, v.value, val)
+                        break
+                caps = [w for w in s_.watches if w.source == 'CAPTURE']
+                if not bad and (len(caps) != 1 or caps[0].expression != capname or caps[0].result is None
+                                or caps[0].result.vid not in s_.var_lookup):
+                    bad = 'capture result %s' % [w.__dict__ for w in caps]
+                elif not bad and captype and s_.var_lookup[caps[0].result.vid].type != captype:
+                    bad = 'captured value has type %r, expected %r' % (s_.var_lookup[caps[0].result.vid].type, captype)
+            c.traces_validated += 1
+            c.note_case(key=('capture-intact', stage, fn), nontrivial=True)
+            if bad:
+                p_ = c.save_replay({'direction': 'C2S', 'kind': 'capture-intact', 'stage': stage, 'function': fn, 'what': bad})
+                c.violation('deferred snapshot (%s on %s): %s' % (stage, fn, bad), p_)
+        finally:
+            rg.close()
+    sys.modules.pop(mod.__name__, None)
+
+
 def run(c):
     quick = c.tier == 'quick'
     rng = random.Random(c.seed)
@@ -322,6 +386,7 @@ def run(c):
     traces, meta, sk = c05.run_instances(c, rnd, wd, 'random-hostile')
     c05.validate(c, traces, meta)
     logged_snapshots_leg(c, wd)
+    capture_intact_leg(c, wd)
     sim = tlc.simulate('Snapshot', c02.mc_cfg(d=2, k=3, cls=c02.ALL_CLS), num=40 if quick else 5000, depth=12, seed=c.seed + 7)
     c.transitions += sim.generated
     multi = [b for b in sim.behaviours if len(b[-1][2]['tps']) >= 2]
